@@ -712,8 +712,21 @@ def check_lexer(ctx, lib):
                     if c2 is None or b.dominates(bb, c2[1]):
                         c2 = (st["place"]["l"], bb)
             if c2 is None:
+                # the second character matched in place by a literal pattern (`Some((_, '='))`): a switch on the char inside next()'s result
                 ok = False
                 detail = "second character not found"
+                for sb in sorted(b.reachable()):
+                    stt = b.blocks[sb]["term"]
+                    if stt["k"] == "switch" and stt["discr"].get("k") in ("copy", "move") and stt["discr"].get("p") and \
+                            stt["discr"]["l"] in derived and stt["discr"].get("ty") == "char":
+                        tg = dict((v, x) for v, x in stt["targets"])
+                        if set(tg) == {ord("=")} and edge_dominates(b, (sb, tg[ord("=")]), pb) and b.dominates(nb, sb):
+                            detail = "Eq pushed under the in-place pattern '=' on the second character"
+                            errb = {bb for bb, i, st in b.stmts() if st["k"] == "assign" and st["place"]["l"] == 0 and not st["place"]["p"]
+                                    and st["rv"]["k"] == "agg" and st["rv"].get("variant") == "Err"}
+                            r = reach_avoiding(b, nt["t"], avoid_blocks=errb | {pb})
+                            leaks = [x for x in r if b.blocks[x]["term"]["k"] == "return" or (b.blocks[x]["term"]["k"] == "call" and b.blocks[x]["term"]["callee"].endswith("::push_back"))]
+                            ok = not leaks
             else:
                 cf2 = CharFlow(b, c2[0], c2[1], o)
                 ok = cf2.at(pb) == chars("=") and b.dominates(c2[1], pb)
